@@ -141,7 +141,7 @@ def worker(args):
                  stream.fmt_div(info), B, ro2, c2)
             return out
         out["feats"].update({k: out["feats"].get(k, 0) + v for k, v in info["features"].items()})
-        if not ro2.log.rstrip().endswith("Z"):
+        if "Z" not in [l.strip() for l in ro2.log.splitlines()[-4:]]:
             feat("run_ended_before_destroy")      # budget or fatal: destroy never ran
         elif "A live 0 " not in ro2.log and "A live 0\n" not in ro2.log:
             prob("ledger", "memory still held after yytables_destroy + yylex_destroy: %s" % [
